@@ -160,7 +160,10 @@ class CHECK(core.Check):
             "optional explicit size, values beyond the width, negative values, bools, occasionally invalid: negative "
             "width, too few fields, size too small) packed, unpacked, packed into a random buffer at a random offset, "
             "both byte orders; unpack = random bytes decoded; bytes/unbytes, hex/unhex, bin/unbin, sign, byte = the "
-            "scalar codecs incl. malformed strings. Every decoder gets one shared bytearray twice plus the same bytes as "
+            "ptext = the format as TEXT (decimal widths with +, leading zeros, underscores; all ten ASCII white-space "
+            "separators; malformed tokens) packed, unpacked and packed into a bytearray / list / bytes buffer at "
+            "non-negative and NEGATIVE offsets, the buffer re-read also after an exception (random + a small exhaustive "
+            "family); scalar codecs incl. malformed strings. Every decoder gets one shared bytearray twice plus the same bytes as "
             "bytes / list; the buffer is re-read after the calls (argument must be unchanged). non-trivial = the call under test returned a value (no exception) "
             "and the input is not empty/zero-width; distinct by full case content. One packall case stands for up to "
             "256 vectors (vector count in coverage.vectors)")
@@ -174,11 +177,18 @@ class CHECK(core.Check):
     PARTIAL = ["C40_unpack_pack_masked_partial: literal 'masked to width' needs every one-bit field to hold 0/1 "
                "(False/True); other values are packed by truthiness as documented (known finding D40a, region "
                "Ioflo.Bits.oneBitNonBool)",
-               "not modelled: fmt text parsing, negative offset / non-bytearray buffers in packifyInto, the caller's "
-               "buffer after an exception, bytearray(int) argument of unpackify, non-ASCII digits in unbinize"]
+               "C40_packIntoFull_negative_offset_partial: a negative offset overwrites in place only while offset+size "
+               "stays negative; reaching the end (offset+size >= 0) inserts instead (known finding D40b, region "
+               "Ioflo.Bits.negOffsetInserts, C40_counterexample_negative_offset)",
+               "not modelled: non-ASCII white space / digits in the format text and in unbinize, list buffers holding "
+               "ints outside 0..255, bytearray(int) argument of unpackify"]
     TECHNIQUE = ("Lean 4 theorems (induction over the format with a bit-level invariant via Nat.testBit; digit "
                  "induction for bytify/unbytify; finite tables for hex digits) + differential correspondence")
-    LEVEL_TEXT = ("Full proofs on the model for every format/size/value: C40_unpack_pack (unpackify∘packify returns each "
+    LEVEL_TEXT = ("Format TEXT (fmt.split() + int()) is modelled: C40_unpack_pack_text, C40_parse_wellformed_text, "
+                  "C40_unpack_pack_wellformed_text. packifyInto in full (any offset, bytearray/list/bytes, buffer after an "
+                  "exception): C40_packIntoFull_frame, C40_packIntoFull_after_error (never partially written: old bytes + "
+                  "zero padding at most), C40_packIntoFull_negative_offset_partial. "
+                  "Full proofs on the model for every format/size/value: C40_unpack_pack (unpackify∘packify returns each "
                   "field reduced to its width — truthiness for one-bit fields — plus the zero padding field, booleans "
                   "when requested, both byte orders), C40_packInto_frame, C40_reverse_mirror_*, C40_unbytify_bytify, "
                   "C40_bytify_unbytify, C40_unhexify_hexify, C40_hexify_unhexify, C40_unbinize_binize, "
@@ -207,6 +217,7 @@ class CHECK(core.Check):
             yield {"kind": "packall", "fmt": fmt, "lo": lo, "n": min(self.CHUNK, total - lo)}
 
     def exhaustive(self, tier):
+        yield from self._ptext_families()
         W = 10 if tier == "thorough" else 8
         for total in range(0, W + 1):
             for fmt in compositions(total):
@@ -348,10 +359,75 @@ class CHECK(core.Check):
         return {"kind": "byte", "fmt": fmt, "fields": fields, "boolean": rng.random() < 0.5,
                 "byte": rng.choice([0, 0xff, rng.randrange(256), rng.randrange(-300, 600)])}
 
+    # ---- format given as TEXT, packifyInto in full (any offset, any buffer type, buffer after an exception)
+    WS = [" ", " ", " ", "  ", "\t", "\n", "\r\n", "\x0b", "\x0c", "\x1c", "\x1d", "\x1e", "\x1f", " \t "]
+
+    def _gen_ptext(self, rng):
+        k = rng.choice([0, 1, 1, 2, 2, 3, 4, 6])
+        good = rng.random() < 0.8
+        toks = []
+        for _ in range(k):
+            w = rng.choice([1, 1, 2, 3, 4, 7, 8, 9, 12, 16, 0, 33])
+            t = str(w)
+            m = rng.randrange(14)
+            if m == 0:
+                t = "+" + t
+            elif m == 1:
+                t = "00" + t
+            elif m == 2 and len(t) > 1:
+                t = t[0] + "_" + t[1:]
+            elif not good:
+                t = rng.choice(["-" + t, t + "_", "_" + t, "1__0", "x", "0x8", "8.", "+", "-", "1e1", t])
+            toks.append(t)
+        text = rng.choice(["", "", " ", "\n\t"])
+        for i, t in enumerate(toks):
+            text += t + (rng.choice(self.WS) if i + 1 < len(toks) else rng.choice(["", "", " ", "\n"]))
+        widths = self._ref_parse(text)
+        nf = len(text.split())
+        fields = [self._rand_val(rng, (widths[i] if widths and i < len(widths) else 4)) for i in range(nf)]
+        if rng.random() < 0.06 and fields:
+            fields.pop()
+        d = (sum(widths) + 7) // 8 if widths and sum(widths) >= 0 else 1
+        size = rng.choice([None, None, None, d, d + 1, max(d - 1, 0)])
+        buf = bytes(rng.randrange(256) for _ in range(rng.choice([0, 1, 2, 3, 4, 6, 9])))
+        s = d if size is None else size
+        off = rng.choice([0, 0, 1, 2, len(buf), len(buf) + 2, -1, -2, -s, -s - 1, -len(buf), -len(buf) - 1,
+                          rng.randrange(-8, 12)])
+        return {"kind": "ptext", "text": text, "fields": fields, "size": size, "boolean": rng.random() < 0.5,
+                "buf": hx(buf), "bk": rng.choice("aaalb"), "offset": off, "rev": rng.random() < 0.3}
+
+    @staticmethod
+    def _ref_parse(text):
+        """reference reading of a format text (regular expressions, not the model): list of ints or None"""
+        import re
+        out = []
+        for t in re.split(r"[ \t\n\r\x0b\x0c\x1c-\x1f]+", text):
+            if t == "":
+                continue
+            if not re.fullmatch(r"[+-]?[0-9]+(_[0-9]+)*", t):
+                return None
+            out.append(int(t.replace("_", "")))
+        return out
+
+    def _ptext_families(self):
+        """small exhaustive family: well-formed and malformed texts x buffer kinds x offsets incl. negative ones"""
+        texts = ["8", "4 4", " 1\t3  2 2\n", "16", "1_0 6", "+8", "008", "", "8 x", "-8 16", "9", "4\x1c4"]
+        for text in texts:
+            nf = len(text.split())
+            for bk in "alb":
+                for buf in ("-", "0102", "0102030405"):
+                    for off in (0, 1, 2, 5, 7, -1, -2, -3, -5, -6):
+                        yield {"kind": "ptext", "text": text, "fields": [0xA5, 3, 0, 2][:nf], "size": None, "boolean": True,
+                               "buf": buf, "bk": bk, "offset": off, "rev": False}
+            yield {"kind": "ptext", "text": text, "fields": [1], "size": 1, "boolean": False, "buf": "aabb", "bk": "a",
+                   "offset": 1, "rev": True}
+
     def generate(self, rng, n, tier):
         for i in range(n):
-            r = rng.randrange(10)
-            if r < 5:
+            r = rng.randrange(12)
+            if r >= 10:
+                yield self._gen_ptext(rng)
+            elif r < 5:
                 yield self._gen_pack(rng)
             elif r < 7:
                 yield self._gen_unpack(rng)
@@ -363,6 +439,30 @@ class CHECK(core.Check):
         from ioflo.aid import byting as B
         k = c["kind"]
         out = []
+        if k == "ptext":
+            text, fields, size, rev = c["text"], c["fields"], c["size"], c["rev"]
+            st, p = call(B.packify, text, fields, size, rev)
+            out.append(hx(p) if st == "ok" else p)
+            if st == "ok":
+                st2, u = call(B.unpackify, text, p, c["boolean"], size, rev)
+                out.append(flds(u) if st2 == "ok" else u)
+            else:
+                out.append(p)
+            raw = unhx(c["buf"])
+            target = {"a": bytearray(raw), "l": list(raw), "b": bytes(raw)}[c["bk"]]
+            try:
+                r = str(B.packifyInto(target, text, fields, size, c["offset"], rev))
+            except core.HarnessTimeout:
+                raise
+            except Exception as ex:
+                r = {ValueError: "ERR ValueError", TypeError: "ERR TypeError", IndexError: "ERR IndexError",
+                     AttributeError: "ERR AttributeError"}.get(type(ex), "ERR other:" + type(ex).__name__)
+            try:
+                after = hx(bytes(target))           # the caller's buffer after the call, also after an exception
+            except Exception:
+                after = "BAD"
+            out.append("%s %s" % (after, r))
+            return out
 
         def line(st_v, conv):
             st, v = st_v
@@ -490,6 +590,12 @@ class CHECK(core.Check):
     # ------------------------------------------------------------------ model
     def requests(self, c):
         k = c["kind"]
+        if k == "ptext":
+            t, fv, s = senc(c["text"]), ilist(c["fields"]), sz(c["size"])
+            return ["packify-t %s %s %s %s" % (t, fv, s, fl(c["rev"])),
+                    "rt-pack-t %s %s %s %s %s" % (t, fv, s, fl(c["boolean"]), fl(c["rev"])),
+                    "packinto-t %s %s %s %s %s %d %s" % (c["bk"], c["buf"], t, fv, s, c["offset"], fl(c["rev"])),
+                    "region negoffset-t %s %s %d" % (t, s, c["offset"])]
         if k in ("packall", "packvec"):
             fmt = c["fmt"]
             f = ilist(fmt)
@@ -554,6 +660,9 @@ class CHECK(core.Check):
     def model_post(self, c, replies):
         k = c["kind"]
         r = list(replies)
+        if k == "ptext":
+            self._region[("negoff", core.case_key(c))] = (r.pop() == "1")
+            return r
         if k in ("pack", "byte"):
             self._region[core.case_key(c)] = (r.pop() == "1")     # the Lean region predicate, same driver run
         # The Lean functions are pure: the argument of a decoding after the call is the argument before the call.
@@ -601,8 +710,50 @@ class CHECK(core.Check):
         except Exception as ex:     # an unexpected shape of the implementation's output is a failure, not a crash
             return "implementation output does not have the expected form (%s: %s): %s" % (type(ex).__name__, ex, out[:6])
 
+    def _ptext_oracle(self, c, out):
+        if len(out) != 3:
+            return "wrong number of results"
+        for o in out:
+            if o.startswith("ARG-MUTATED"):
+                return "a codec changed its argument: " + o[12:]
+        p, u, into = out
+        after, _, ret = into.partition(" ")
+        raw = unhx(c["buf"])
+        if ret.startswith("ERR"):
+            # an exception must not leave other bytes disturbed: the old content is still there, anything
+            # appended is zero padding
+            a = unhx(after)
+            if a[:len(raw)] != raw or any(a[len(raw):]):
+                return "packifyInto raised %s and left the buffer %s (was %s)" % (ret, after, c["buf"])
+        widths = self._ref_parse(c["text"])
+        fields, size = c["fields"], c["size"]
+        if widths is None or not valid_format(widths, len(fields), size):
+            return None
+        s = default_size(widths) if size is None else size
+        if p.startswith("ERR"):
+            return "packify raised %s on the well-formed format %r" % (p, c["text"])
+        want = expected_fields(widths, fields, size, c["boolean"])
+        if u != want:
+            return "unpackify(packify(fields)) with format text %r = %s, expected masked fields %s" % (c["text"], u, want)
+        if c["bk"] == "b":
+            return None                          # bytes is immutable: nothing is claimed
+        off, n = c["offset"], len(raw)
+        if off >= 0:
+            ext = raw + b"\0" * max(0, off + s - n)
+            wantbuf = ext[:off] + unhx(p) + ext[off + s:]
+        elif -n <= off and off + s <= 0:
+            wantbuf = raw[:n + off] + unhx(p) + raw[n + off + s:]      # counted from the end, in place
+        else:
+            return None                          # slice not inside the buffer: nothing is claimed
+        if into != "%s %d" % (hx(wantbuf), s):
+            return ("packifyInto(offset=%d) left %s, expected %s %d (same bytes at the offset, others untouched)"
+                    % (off, into, hx(wantbuf), s))
+        return None
+
     def _oracle(self, c, out):
         k = c["kind"]
+        if k == "ptext":
+            return self._ptext_oracle(c, out)
         if any(o.startswith("HARNESS") for o in out):
             return "harness: " + out[0]
         for o in out:
@@ -757,6 +908,17 @@ class CHECK(core.Check):
 
     # ------------------------------------------------------------------ bookkeeping
     def region(self, finding, c):
+        if c["kind"] == "ptext":
+            widths = self._ref_parse(c["text"])
+            if finding.get("region") == "Ioflo.Bits.negOffsetInserts":
+                key = ("negoff", core.case_key(c))
+                if key not in self._region:
+                    self._region[key] = core.Driver(self.ENGINE).run([self.requests(c)[-1]]) == ["1"]
+                return self._region[key]
+            if finding.get("region") == "Ioflo.Bits.oneBitNonBool" and widths is not None:
+                r = core.Driver(self.ENGINE).run(["region onebit %s %s" % (ilist(widths), ilist(c["fields"]))])
+                return r == ["1"]
+            return False
         if finding.get("region") != "Ioflo.Bits.oneBitNonBool":
             return False
         if c["kind"] == "pack":
@@ -775,6 +937,9 @@ class CHECK(core.Check):
         if not out or out[0].startswith("ERR") or out[0].startswith("HARNESS"):
             return False
         k = c["kind"]
+        if k == "ptext":
+            w = self._ref_parse(c["text"])
+            return bool(w) and sum(w) > 0
         if k in ("packall", "packvec", "pack", "unpack", "byte"):
             return sum(c["fmt"]) > 0
         if k in ("hex", "unbytes"):
@@ -790,6 +955,9 @@ class CHECK(core.Check):
     def bucket(self, c, out):
         k = c["kind"]
         err = bool(out) and out[0].startswith("ERR")
+        if k == "ptext":
+            return "ptext %s buf:%s offset%s" % ("malformed" if self._ref_parse(c["text"]) is None else "error" if err else "ok",
+                                                  c["bk"], "<0" if c["offset"] < 0 else ">=0")
         if k in ("packall", "packvec"):
             return "%s width%s" % (k, "<=8" if sum(c["fmt"]) <= 8 else "9-16")
         if k in ("pack", "unpack"):
@@ -810,6 +978,19 @@ class CHECK(core.Check):
 
     def _shrink(self, c):
         k = c["kind"]
+        if k == "ptext":
+            toks = c["text"].split()
+            for i in range(len(toks)):
+                yield dict(c, text=" ".join(toks[:i] + toks[i + 1:]), fields=c["fields"][:i] + c["fields"][i + 1:])
+            if c["text"] != " ".join(toks):
+                yield dict(c, text=" ".join(toks))
+            for key, val in (("buf", "-"), ("offset", 0), ("size", None), ("rev", False), ("bk", "a"), ("boolean", False)):
+                if c[key] != val:
+                    yield dict(c, **{key: val})
+            for i, f in enumerate(c["fields"]):
+                if f not in (0, 1) and not isinstance(f, bool):
+                    yield dict(c, fields=c["fields"][:i] + [1] + c["fields"][i + 1:])
+            return
         if k in ("packall",):
             for v in vectors(c["fmt"], c["lo"], c["n"]):
                 yield {"kind": "pack", "fmt": c["fmt"], "fields": v, "size": None, "boolean": True, "buf": "-", "offset": 0}
